@@ -63,6 +63,13 @@ impl OverflowTable {
             clk += 1;
         }
 
+        // the states recorded by the pushes above are keyed by the (negative) clock values of the
+        // initial rows; record the initial state for clock cycle 0 as well, so that the history is
+        // complete before the first push or pop of the program.
+        if enable_trace {
+            overflow_table.save_current_state(0);
+        }
+
         overflow_table
     }
 
